@@ -15,13 +15,13 @@ Bounded stand-in (real IMAPServer + dict backend over in-memory streams; two ses
   fork after every command), CommandResponse.add_untagged (FETCH merging).
 """
 from pyvc.prop import Property, Bounded
-from . import selected as S, state as ST
+from . import selected as S, state as ST, runstate as RS
 from harness.e2e_views import bounded_views
 from harness.e2e_idle import bounded_idle_races
 
 PROPERTY = Property(
     'C01', 'Sequence numbers: the client view never diverges from the server',
-    contracts=[S.sm_update, S.sm_remove, S.compare] + S.CONTRACTS_LINK + [ST.do_command_sel],
+    contracts=[S.sm_update, S.sm_remove, S.compare] + S.CONTRACTS_LINK + [ST.do_command_sel, RS.handle_updates],
     registry=dict(list(ST.REG.items()) + list(S.REG.items())),
     bounded=[Bounded(
         'two sessions on one mailbox, client model',
